@@ -16,7 +16,7 @@ Per case:
         mode rw, error code in LATE (raised after the container's open function wrote its provisional header: codec init, sf_format_check,
         validate_sfinfo, validate_psf, a system error) or container AIFF (aiff_open installs aiff_close before it parses)
                                                                                   -> class of KF-RDWR-FAILED-OPEN-WRITES (known finding)
-    open=ok                                                                       -> the input was acceptable; not judged here
+    open=ok                                                                       -> the input was acceptable; in mode r the open + close must leave the file unchanged, rw is not judged here
 
 LATE is measured on the library under test (the numbers behind the four messages, `errnum`).
 The model is lean/SfModel/FailedOpen.lean (theorems lean/SfProps/C09FailedOpen.lean): the stages of psf_open_file, the error exit with and
@@ -104,6 +104,9 @@ def judge(case, line, late):
     if d.get("fdleft") not in (None, "0"):
         why.append("the descriptor handed over with close_desc=1 is still open after the call")
     if line.startswith("open=ok"):
+        # an open that succeeds is closed at once: in SFM_READ that must not have touched the file either
+        if case["mode"] == "r" and d.get("file") == "changed":
+            why.append("a SFM_READ open that succeeded, closed at once, changed the file (length %s -> %s, first difference at byte %s)" % (d.get("len"), d.get("newlen"), d.get("firstdiff")))
         return ("bad", why) if why else ("ok", [])
     if d.get("err") in (None, "0"):
         why.append("sf_open returned NULL but sf_error (NULL) is 0")
